@@ -191,11 +191,12 @@ func (e *Engine) execFunc(st *State, fn *ssa.Function, args []Val, bind []Val, d
 	e.analyzeLoops(fn)
 	if st.spec && depth > 1 && scalarResults(fn) && !e.noMerge {
 		// pure scalar spec function: evaluate path-wise on a clone and merge the results into one ite-term
-		key := fn.String() + "|" + renderVals(args) + "|" + st.bytesHeap().String()
+		key := fn.String() + "|" + renderVals(args) + "|" + st.bytesHeap().String() + fmt.Sprint(st.assume)
 		if m, ok := e.memo[key]; ok {
 			return []Outcome{{st, m}}
 		}
 		s2 := st.clone()
+		s2.goal = false
 		s2.pc = nil // merged evaluation is independent of the caller's path condition
 		n0 := 0
 		e.noPrune++
@@ -219,7 +220,7 @@ func (e *Engine) execFunc(st *State, fn *ssa.Function, args []Val, bind []Val, d
 			merged[k] = acc
 		}
 		e.memo[key] = merged
-		return []Outcome{{st, merged}}
+		return []Outcome{{st, e.simplifyVals(st, merged)}}
 	}
 	return e.execBody(st, fn, args, bind, depth)
 }
@@ -610,7 +611,7 @@ func (e *Engine) load(st *State, p Val, t types.Type) Val {
 	case PtrObj:
 		return x // value of a library object is its handle
 	case PtrTable:
-		return x.T.lookup(x.Idx)
+		return e.simplifyIte(st, x.T.lookup(x.Idx), 0)
 	case PtrHeap:
 		return e.loadLoc(st, e.heapLoc(x), typeAtPath(x.Root, x.Path))
 	case PtrElemH:
@@ -1388,6 +1389,7 @@ func (e *Engine) isRecursive(fn *ssa.Function) bool {
 func (e *Engine) unfoldOnce(st *State, fn *ssa.Function, args []Val) []Outcome {
 	s2 := st.clone()
 	s2.spec = true
+	s2.goal = false
 	savedFn, savedB, savedPaths := e.unfoldFn, e.unfoldBudget, e.paths
 	e.unfoldFn, e.unfoldBudget = fn, 1
 	outs := e.execFunc(s2, fn, args, nil, 1)
@@ -1397,12 +1399,7 @@ func (e *Engine) unfoldOnce(st *State, fn *ssa.Function, args []Val) []Outcome {
 
 // defAxioms returns definitional equations for the recursive scalar applications occurring in the terms.
 func (e *Engine) defAxioms(st *State, terms []*Term) []*Term {
-	var text strings.Builder
-	for _, t := range terms {
-		text.WriteString(t.String())
-		text.WriteByte(' ')
-	}
-	hay := text.String()
+	hay := fullText(terms)
 	var ax []*Term
 	seen := map[string]bool{}
 	for round := 0; round < 2; round++ {
@@ -1422,7 +1419,9 @@ func (e *Engine) defAxioms(st *State, terms []*Term) []*Term {
 			for hk, hv := range ra.heap {
 				base.heap[hk] = hv
 			}
+			e.noPrune++ // definitional unfolding is independent of the path condition: no feasibility queries
 			outs := e.unfoldOnce(base, ra.fn, ra.args)
+			e.noPrune--
 			for _, o := range outs {
 				v := asTerm(o.ret[0])
 				a := Implies(And(o.st.pc...), Eq(ra.t, v))
@@ -1557,4 +1556,64 @@ func (e *Engine) mapUpdate(st *State, fr *Frame, i *ssa.MapUpdate) {
 	na := Store(arr, k, p.Ref)
 	na.Sort = "(Array " + ks + " Ref)"
 	st.objs[mv.ID] = &MapObj{Dom: nd, Vals: map[string]*Term{"p": na}, KeyW: m.KeyW, ValT: m.ValT}
+}
+
+
+// fullText renders the terms together with the bodies of every abbreviation they (transitively) mention.
+func fullText(terms []*Term) string {
+	var sb strings.Builder
+	leaves := map[string]*Term{}
+	for _, t := range terms {
+		sb.WriteString(t.String())
+		sb.WriteByte(' ')
+		t.leaves(leaves)
+	}
+	for _, l := range leaves {
+		if l.Def != nil {
+			sb.WriteString(l.Def.String())
+			sb.WriteByte(' ')
+		}
+	}
+	return sb.String()
+}
+
+
+// simplifyIte prunes the branches of an ite chain that the current path condition decides (the merged evaluation
+// of specification functions and table lookups is path-independent, so the same term is reused on every path and
+// specialised here). It only ever replaces a term by one that is equal under the path condition.
+func (e *Engine) simplifyIte(st *State, t *Term, depth int) *Term {
+	if e.noPrune > 0 || depth > 24 || t.IsConst() {
+		return t
+	}
+	c := t.core()
+	if c.Op != "ite" {
+		return t
+	}
+	cond := c.Args[0]
+	if e.valid(st, cond) {
+		return e.simplifyIte(st, c.Args[1], depth+1)
+	}
+	if e.valid(st, Not(cond)) {
+		return e.simplifyIte(st, c.Args[2], depth+1)
+	}
+	a, b := e.simplifyIte(st, c.Args[1], depth+1), e.simplifyIte(st, c.Args[2], depth+1)
+	if a == c.Args[1] && b == c.Args[2] {
+		return t
+	}
+	return Ite(cond, a, b)
+}
+
+func (e *Engine) simplifyVals(st *State, vs []Val) []Val {
+	if e.noPrune > 0 {
+		return vs
+	}
+	out := make([]Val, len(vs))
+	for i, v := range vs {
+		if t, ok := v.(*Term); ok {
+			out[i] = e.simplifyIte(st, t, 0)
+		} else {
+			out[i] = v
+		}
+	}
+	return out
 }
